@@ -101,7 +101,14 @@ def _mp_psi(m):
 
 
 def _mp_hyperu(a, b):
-    return lambda x: mpmath.hyperu(a, b, x)
+    def f(x):
+        try:
+            return mpmath.hyperu(a, b, x)
+        except ValueError:
+            # mpmath's hypsum cannot certify a 1F1 term that is EXACTLY zero (e.g. U(2, 2.5, 1/2) = 2): tell it
+            # below which magnitude a term may be taken as zero (far below the working precision)
+            return mpmath.hyperu(a, b, x, zeroprec=6 * mp.prec)
+    return f
 
 
 def _np_polygamma(m):
@@ -136,8 +143,8 @@ SMOOTH = {
     'sin': _S(mpmath.sin, np.sin),
     'cos': _S(mpmath.cos, np.cos),
     'tan': _S(mpmath.tan, np.tan, rng=(-1.3, 1.3)),          # only exported when algopy sees mpmath
-    'arcsin': _S(mpmath.asin, np.arcsin, cap=(9, 9)),
-    'arccos': _S(mpmath.acos, np.arccos, cap=(9, 9)),
+    'arcsin': _S(mpmath.asin, np.arcsin, cap=(10, 10)),
+    'arccos': _S(mpmath.acos, np.arccos, cap=(10, 10)),
     'arctan': _S(mpmath.atan, np.arctan),
     'sinh': _S(mpmath.sinh, np.sinh),
     'cosh': _S(mpmath.cosh, np.cosh),
@@ -211,7 +218,10 @@ def _ref(name, extras, x, n):
     mp.dps = DPS
     try:
         f = SMOOTH[name]['mp'](*extras)
-        v = mpmath.diff(f, mpf(x), n) if n else f(mpf(x))
+        try:
+            v = mpmath.diff(f, mpf(x), n) if n else f(mpf(x))
+        except (ValueError, ZeroDivisionError, mpmath.libmp.NoConvergence):
+            return None          # the oracle cannot decide -> the case is counted as inconclusive
         if isinstance(v, mpmath.mpc):
             if v.imag != 0:
                 return None
@@ -293,6 +303,14 @@ def _note_steering(case, stats):
 
 
 def prop_smooth(case, stats):
+    try:
+        _prop_smooth(case, stats)
+    except Inconclusive as e:
+        stats.event('inconclusive:%s:n=%d:x=%s:%s' % (case['f'], case['n'], _elements(case['x']), case['extras']))
+        raise
+
+
+def _prop_smooth(case, stats):
     name, n, x = case['f'], int(case['n']), case['x']
     extras = tuple(case['extras'])
     spec = SMOOTH[name]
@@ -460,13 +478,14 @@ def piecewise_cases(draw, name, tier):
     elif jump == 'zero':
         pt = st.one_of(gen.nice_floats(0.05, 5.0), gen.nice_floats(-5.0, -0.05), st.sampled_from([1.0, -1.0, 0.5, -0.5, 2.0]))
     else:   # clip: below, inside, above; distance >= 0.05 from both bounds
-        def place(u):
-            if u < 1:
+        def place(ru):
+            region, u = ru
+            if region == 0:
                 return lo - 0.05 - 2 * u
-            if u < 2:
-                return lo + 0.05 + (u - 1) * (hi - lo - 0.1)
-            return hi + 0.05 + 2 * (u - 2)
-        pt = gen.nice_floats(0.0, 2.999).map(place)
+            if region == 1:
+                return lo + 0.05 + u * (hi - lo - 0.1)
+            return hi + 0.05 + 2 * u
+        pt = st.tuples(st.sampled_from([1, 0, 2, 1]), gen.nice_floats(0.0, 1.0)).map(place)
     vals = [draw(pt) for _ in range(cnt)]
     return {'f': name, 'n': n, 'extras': extras, 'form': form, 'x': _build(form, vals, shape), 'out': draw(st.booleans())}
 
@@ -495,6 +514,13 @@ def _classes(case):
         c.append('extra-type=' + type(e).__name__)
     if case['f'] == 'polygamma':
         c.append('m=%d' % case['extras'][0])
+    if case['f'] == 'clip':
+        lo, hi = case['extras']
+        for v in el:
+            c.append('clip:n%s:%s' % ('0' if n == 0 else ('1' if n == 1 else '>=2'),
+                                      'at-bound' if v in (lo, hi) else ('below' if v < lo else ('above' if v > hi else 'inside'))))
+    if any(v != round(2 * v) / 2 for v in el):
+        c.append('x-has-generic-point')
     if case.get('steered'):
         c.append('steered-around-' + KF_ERF0)
     return c
@@ -514,7 +540,7 @@ def buckets(tier):
         if name in SMOOTH:
             slow = SMOOTH[name]['slow']
             bl.append(Bucket(name, (lambda name=name: smooth_cases(name, tier)), prop_smooth,
-                             {'quick': 20 if slow else 120, 'thorough': 150 if slow else 3000},
+                             {'quick': 20 if slow else 120, 'thorough': 60 if slow else 1500},
                              nontrivial=_nontrivial, classes=_classes,
                              shards={'quick': 4 if slow else 1, 'thorough': 12 if slow else 2},
                              weight=60.0 if slow else 1.0))
